@@ -175,3 +175,27 @@ def s_moveaxis_inplace(a, b, v):
     t *= 2
     t -= np.array([1, 2, 3])
     return np.hstack([t.reshape(-1), m.reshape(-1)])
+
+
+def s_default_binding(a, b, v):
+    early, late = [], []
+    for i in range(3):
+        early.append(lambda x, i=i: x * 10 + i)
+        late.append(lambda x: x * 10 + i)
+
+        def f(x, k=i + v):
+            return x - k
+        early.append(f)
+    return np.array([g(a[0]) for g in early] + [g(a[1]) for g in late])
+
+
+def s_listcomp_ranges(a, b, v):
+    l = 3
+    ms = [x for x in range(0, l + 1)] + [-x for x in range(-l, 0)]
+    return np.array(ms + [k * k for k in range(2, 5)])
+
+
+def s_mask_column_assign(a, b, v):
+    m = np.arange(15).reshape(3, 5) + a[0]
+    m[:, a > 1] = 0
+    return m.reshape(-1)
